@@ -68,12 +68,28 @@ def strip_tests_and_comments(src):
     return out
 
 
-def scan(rel):
+def conc_files():
+    """Every non-test source file of the VM and checker crates: scanned for concurrency constructs only (C02)."""
+    out = []
+    for crate in ("vm", "check"):
+        base = os.path.join(REPO, "crates", crate, "src")
+        for dp, _, fs in os.walk(base):
+            for f in sorted(fs):
+                if f.endswith(".rs"):
+                    out.append(os.path.relpath(os.path.join(dp, f), REPO))
+    return sorted(out)
+
+
+EXAMPLES = {}
+
+
+def scan(rel, only_shared=False):
     path = os.path.join(REPO, rel)
     src = open(path).read()
     lines = strip_tests_and_comments(src)
     sites = {}
     fn = "<top>"
+    examples = EXAMPLES
     for ln, code in enumerate(lines, 1):
         m = re.search(r'\bfn\s+(\w+)', code)
         if m:
@@ -86,15 +102,21 @@ def scan(rel):
             kinds = [k for rx, k in SHARED if re.search(rx, text)]
         else:
             kinds = [k for rx, k in PANIC + SHARED if re.search(rx, text)]
+        if only_shared:
+            kinds = [k for k in kinds if k in ("shared-state", "parallel")]
         if re.search(r"\b(Send|Sync|Clone|Copy|'static|Deref|Display|Debug)\b|\bimpl\s|\bdyn\s", text):
             kinds = [k for k in kinds if k != 'arith']        # `+` between trait bounds
         for k in sorted(set(kinds)):
-            key = "%s::%s::%s::%s" % (rel, fn, k, re.sub(r'\s+', ' ', text))
+            # one entry per (file, function, kind) with the number of such lines: rewording a line or renaming a
+            # variable on it changes nothing; a new panic / wrap / shared-state site in a function raises its count
+            key = "%s::%s::%s" % (rel, fn, k)
             sites[key] = sites.get(key, 0) + 1
+            examples.setdefault(key, []).append(re.sub(r'\s+', ' ', text)[:140])
     return sites
 
 
 def inventory():
+    EXAMPLES.clear()
     inv = {}
     errors = []
     for rel in FILES:
@@ -102,6 +124,12 @@ def inventory():
             inv.update(scan(rel))
         except Exception as e:
             errors.append("%s: %s" % (rel, e))
+    for rel in conc_files():
+        if rel not in FILES:
+            try:
+                inv.update(scan(rel, only_shared=True))
+            except Exception as e:
+                errors.append("%s: %s" % (rel, e))
     return inv, errors
 
 
@@ -116,7 +144,13 @@ def compare():
 
 
 def props_of(site_key):
-    return FILES.get(site_key.split("::")[0], [])
+    parts = site_key.split("::")
+    props = list(FILES.get(parts[0], []))
+    # a new parallel construct or piece of shared mutable state anywhere in the VM or the checker is a schedule the
+    # sequential model of C02 does not account for
+    if len(parts) > 2 and parts[2] in ("shared-state", "parallel") and re.match(r'crates/(vm|check)/src/', parts[0]) and "C02" not in props:
+        props.append("C02")
+    return props
 
 
 def main():
@@ -136,7 +170,7 @@ def main():
         allow = {}
         for k, v in sorted(inv.items()):
             cov = next((t for pre, t in covered.items() if k.startswith(pre)), "")
-            allow[k] = {"count": v, "covered_by": cov}
+            allow[k] = {"count": v, "covered_by": cov, "lines": EXAMPLES.get(k, [])}
         json.dump(allow, open(os.path.join(HERE, "inventory_allow.json"), "w"), indent=0)
     return 0
 
